@@ -12,7 +12,8 @@ This is NOT the real library.  It implements the contract that llama_agents.dbos
 1. DBOS.workflow(name) registers a coroutine function; start_workflow_async under SetWorkflowID(id) records
    (id, name, pickled inputs, PENDING, executor) and runs the function as a task whose DBOS context has function_id = 0.
    Starting an id that already exists returns a handle to the existing execution.
-2. DBOS.step(name): on the first slice of the call the context's function_id is incremented and becomes the step's id; if
+2. DBOS.step(name): on the first slice of the call the context's function_id is incremented and becomes the step's id (an
+   async step is then suspended for HOPS loop iterations - the real library looks the id up off-loop; HOPS in 0..2 is drawn per run); if
    operation_outputs has that (workflow, id) the recorded output / error is returned WITHOUT running the body (a recorded
    row with another function name raises DBOSUnexpectedStepError); otherwise the body runs and its outcome is recorded
    in one committed transaction before it is returned.  A step called outside a workflow or inside another step is a
@@ -71,6 +72,7 @@ _NEXT_ID: contextvars.ContextVar[str | None] = contextvars.ContextVar("dbos_next
 
 _instances: dict[int, "_Instance"] = {}
 _waiters: list[asyncio.Future] = []
+HOPS = 1                # loop iterations an async operation is suspended for its database lookup (a per-run knob of the simulator)
 OBSERVER: list = []     # optional callables(kind, **fields) for the simulator's trace (observation only)
 
 
@@ -105,6 +107,13 @@ async def _wait_change(timeout: float | None) -> None:
             _waiters.remove(fut)
         if not fut.done():
             fut.cancel()
+
+
+async def _hop() -> None:
+    """the database lookup of an async operation runs off-loop in the real library: the caller is suspended for (at least) one
+    loop iteration before it learns whether a recorded result exists"""
+    for _ in range(HOPS):
+        await asyncio.sleep(0)
 
 
 def reset_emulator() -> None:
@@ -331,6 +340,7 @@ class DBOS(metaclass=_Meta):
                     ctx, fid, rec = _enter()
                     if ctx is None:
                         return await fn(*a, **k)
+                    await _hop()
                     if rec is not None:
                         if rec[2] is not None:
                             raise pickle.loads(rec[2])
@@ -460,8 +470,10 @@ class DBOS(metaclass=_Meta):
         ctx.function_id += 1
         tfid = ctx.function_id
         rec = inst.lookup(wfid, fid)
+        await _hop()
         if rec is not None:
             if rec[0] != "DBOS.recv":
+                _obs("dbos-unexpected-step", wf=wfid, fid=fid, expected="DBOS.recv", recorded=rec[0])
                 raise DBOSUnexpectedStepError(wfid, fid, "DBOS.recv", rec[0])
             _obs("dbos-recv-replayed", wf=wfid, fid=fid)
             return pickle.loads(rec[1])
